@@ -70,6 +70,7 @@ def run(pid, tier, seed):
                 tags = list(m["tags"]) + [f"use:{u}" for u in m["uses"].values()] + [f"kind:{m['kind']}"]
                 src = tsgen.emit_item(it)
                 decls = set()
+                exports = set()
                 for ev, kinds, ts_args in members:
                     chk.add_eval()
                     wit = {"rust": ev["rust"], "source": src, "event": {k: ev[k] for k in ("decl", "name", "decl_concrete", "inline", "params", "free", "equiv", "name_form")}}
@@ -84,6 +85,12 @@ def run(pid, tier, seed):
                     if "Ok" not in ev["decl"]:
                         continue
                     decls.add(ev["decl"]["Ok"])
+                    ex = ev.get("exported") or {}
+                    if "Ok" in ex:
+                        exports.add(ex["Ok"])
+                    elif "Panic" in ex:
+                        chk.violation(f"C07|panic|export_to_string|{panic_class(ex['Panic'])}", f"{ev['rust']}::export_to_string() panicked: {ex['Panic'][:200]}",
+                                      wit, tags=tags + ["panic"])
                     if not ev["parsed"]:
                         chk.violation(f"C07|unparseable-decl|{iid}", f"{ev['rust']}: decl() does not parse: {ev['decl']['Ok'][:300]}", wit, tags=tags + ["unparseable"])
                         continue
@@ -109,6 +116,10 @@ def run(pid, tier, seed):
                         chk.violation(f"C07|name-form|{m['kind']}", f"{ev['rust']}: name() = {ev['name'].get('Ok')!r} is not {ev['ident'].get('Ok')}<{ev['arg_names']}>",
                                       wit, tags=tags + ["name-form"])
                     eq = ev["equiv"]
+                    if "off-concrete" in kinds:
+                        # `concrete(P = X)` with another argument for P: decl_concrete() describes that argument, not X
+                        chk.hist("off_concrete_instantiations", m["kind"])
+                        eq = None
                     if eq:
                         chk.hist("equivalence_witnesses", "expanded", eq["witnesses"][0])
                         chk.hist("equivalence_witnesses", "concrete", eq["witnesses"][1])
@@ -131,6 +142,10 @@ def run(pid, tier, seed):
                 if len(decls) > 1:
                     chk.violation(f"C07|decl-depends-on-arguments|{m['kind']}", f"{it.name}: decl() differs between instantiations: {sorted(decls)[:2]}",
                                   {"source": src, "decls": sorted(decls)}, tags=tags + ["decl-depends-on-arguments"])
+                if len(exports) > 1:
+                    chk.violation(f"C07|exported-text-depends-on-arguments|{m['kind']}",
+                                  f"{it.name}: export_to_string() differs between instantiations: {sorted(exports)[:2]}",
+                                  {"source": src, "exports": sorted(exports)}, tags=tags + ["exported-text-depends-on-arguments"])
                 if len(chk.samples) < 4 and members:
                     ev = members[0][0]
                     chk.sample({"definition": src, "instantiation": ev["rust"], "decl": ev["decl"].get("Ok"), "name": ev["name"].get("Ok"),
